@@ -20,7 +20,8 @@
 //	tw I n=v,…     vI.With(rel.NewTuple(…));   two I n=v,…   vI.Without(…)
 //
 // Path A runs the steps one by one.  After EVERY step the canonical text (hlib.Canon: Enumerator walks only)
-// of EVERY earlier value is recomputed and compared with the snapshot taken when that value was created.
+// of EVERY earlier value is recomputed and compared with the snapshot taken when that value was created
+// (for a rel.Relation also its heading, the names slice in its own order).
 // Path B evaluates the whole history as ONE nested-let arr.ai program `let v0 = e0; let v1 = e1; … [v0, …, vN]`
 // and compares each element with path A's creation-time snapshot.
 //
@@ -49,6 +50,7 @@ import (
 type hist struct {
 	vals  []rel.Value // nil = the step failed
 	snaps []string
+	heads []string // the heading (NamesSlice, in its own order) of a rel.Relation at creation: part of the value
 	srcs  []string
 	first string // first stability violation
 }
@@ -250,6 +252,7 @@ func (h *hist) runStep(step string) {
 	} else {
 		h.snaps = append(h.snaps, hlib.Canon(v))
 	}
+	h.heads = append(h.heads, heading(v))
 	// stability of every earlier value
 	for j := 0; j < k; j++ {
 		if h.vals[j] == nil {
@@ -258,7 +261,19 @@ func (h *hist) runStep(step string) {
 		if now := hlib.Canon(h.vals[j]); now != h.snaps[j] && h.first == "" {
 			h.first = fmt.Sprintf("changed:v%d@%d(was %s now %s)", j, k, h.snaps[j], now)
 		}
+		if now := heading(h.vals[j]); now != h.heads[j] && h.first == "" {
+			h.first = fmt.Sprintf("changed:v%d@%d(heading was %s now %s)", j, k, h.heads[j], now)
+		}
 	}
+}
+
+// heading reads the names slice of a Relation (the tuples an Enumerator yields are built from a map cached at
+// construction and would not show a heading that was overwritten in place; later joins use the slice).
+func heading(v rel.Value) string {
+	if r, ok := v.(rel.Relation); ok {
+		return strings.Join(r.AttrsName(), ",")
+	}
+	return ""
 }
 
 func runHist(p []string) *hist {
